@@ -199,6 +199,36 @@ def registry() -> dict:
     return {str(p): sorted(str(b) for b in boards) for p, boards in pio.SUPPORTED_PLATFORMS.items()}
 
 
+def source_listing():
+    """What the source text of pio.py itself lists: platform -> sorted board ids, read with `ast` (nothing is executed): for every
+    `"platform": NAME` entry of the SUPPORTED_PLATFORMS display, the whitespace-separated words of the string constants inside the
+    module-level assignment of NAME.  None when the module is not written in that form (then there is no listing to hold the
+    registry to, and the leg is skipped - a gap, never a verdict)."""
+    import ast
+    import re
+    try:
+        tree = ast.parse(Path(pio_module().__file__).read_text(encoding="utf-8"))
+    except (OSError, SyntaxError):
+        return None
+    assigns = {}
+    for node in tree.body:
+        tgt = node.targets[0] if isinstance(node, ast.Assign) and len(node.targets) == 1 else getattr(node, "target", None) if isinstance(node, ast.AnnAssign) else None
+        if isinstance(tgt, ast.Name) and getattr(node, "value", None) is not None:
+            assigns[tgt.id] = node.value
+    plats = assigns.get("SUPPORTED_PLATFORMS")
+    if not isinstance(plats, ast.Dict) or not plats.keys:
+        return None
+    out = {}
+    for k, v in zip(plats.keys, plats.values):
+        if not (isinstance(k, ast.Constant) and isinstance(k.value, str) and isinstance(v, ast.Name) and v.id in assigns):
+            return None
+        words = [w for c in ast.walk(assigns[v.id]) if isinstance(c, ast.Constant) and isinstance(c.value, str) for w in c.value.split()]
+        if not words or any(re.fullmatch(r"[A-Za-z0-9][A-Za-z0-9_.+-]*", w) is None for w in words):
+            return None
+        out[k.value] = sorted(set(words))
+    return out
+
+
 def newstr(s):
     """An equal string that is a different object (never the interned literal / the registry's own key object): what a
     caller gets from a config file, argv, JSON or string arithmetic."""
